@@ -743,6 +743,7 @@ func cmdC04(args []string) int {
 	out := fs.String("out", "cases.v", "Coq case file")
 	statsPath := fs.String("stats", "stats.json", "stats output")
 	fs.Parse(args)
+	noLongHays = *tier == "thorough" // the thorough ledgers predate the long-haystack families (DESIGN section 5)
 
 	t0 := time.Now()
 	np, nh, maxPairs := 520, 12, 100
